@@ -53,7 +53,11 @@ def make(rng, typ):
     if typ == "Requirement":
         from props.C08 import render, req_struct
         st = req_struct(rng)
-        st2 = dict(st, name=st["name"].upper().replace("-", "_"), extras=list(reversed(st["extras"])), clauses=list(reversed(st["clauses"])))
+        extras2 = list(reversed(st["extras"]))
+        if extras2 and rng.random() < 0.5:
+            # the same extras in another PEP 685 spelling (case, separators): whatever == decides, hash and parts must follow
+            extras2 = [e.upper().replace("-", "_").replace(".", "-") if rng.random() < 0.7 else e for e in extras2]
+        st2 = dict(st, name=st["name"].upper().replace("-", "_"), extras=extras2, clauses=list(reversed(st["clauses"])))
         if st["marker"]:
             st2["marker"] = respell_marker(rng, st["marker"])
         return render(rng, st), render(rng, st2), render(rng, req_struct(rng))
